@@ -170,18 +170,16 @@ func getChildQueuesPreemptableResource(queue *Queue, parentPreemptableResource *
 		if allocated.IsEmpty() || guaranteed.StrictlyGreaterThanOrEqualsOnlyExisting(allocated) {
 			continue
 		}
-		var usedResource *resources.Resource
-		if !guaranteed.IsEmpty() {
-			usedResource = resources.SubOnlyExisting(guaranteed, allocated)
-		} else {
-			usedResource = allocated
-		}
+		// usage above guaranteed is preemptable: a type without a guaranteed quantity is preemptable in full,
+		// a type at or below its guaranteed quantity is not preemptable at all
 		preemptableResource := resources.NewResource()
-		for k, v := range usedResource.Resources {
-			if v < 0 {
-				preemptableResource.Resources[k] = v * -1
-			} else {
-				preemptableResource.Resources[k] = v
+		for k, v := range allocated.Resources {
+			above := v
+			if guaranteed != nil {
+				above -= guaranteed.Resources[k]
+			}
+			if above > 0 {
+				preemptableResource.Resources[k] = above
 			}
 		}
 		childrenPreemptableResource[child] = preemptableResource
